@@ -1078,6 +1078,12 @@ pub struct C16Plan {
     /// has already taken, never for the queue behind them.
     #[serde(default)]
     pub backlog: usize,
+    /// after queueing the backlog the application lets go of its multiplexor (the orderly wind-down
+    /// starts) and, at that instant, the (live) peer stops taking messages for this many ms, then
+    /// goes on: longer than T. With keepalive disabled no step of the wind-down may time out -
+    /// everything queued arrives and a Close follows (0 = not done)
+    #[serde(default)]
+    pub drop_then_stall_ms: u64,
 }
 
 pub fn run_c16(plan: &C16Plan, sched: &Sched, record: bool) -> Outcome {
@@ -1102,19 +1108,21 @@ async fn run_c16_async(plan: C16Plan, sched: Sched, record: bool) -> Outcome {
     TASK_START_DELAY_MS.with(|c| c.set(plan.start_delay_ms));
     let mut s = setup(&cfg, opts, &plan.link, plan.weights, &sched, record, RxPolicy { ack_pushes: false, ack_req_connects: None }, Rc::new(RefCell::new(vec![])));
     TASK_START_DELAY_MS.with(|c| c.set(0));
+    let mut mux0 = Some(s.mux);
     let d0 = ms(plan.start_delay_ms);
     s.link.lock().unwrap().auto_pong = [true, false];
     let t0 = s.link.lock().unwrap().t0;
     // pending operations that must observe the end of the connection
     let dg_end: Rc<RefCell<Option<String>>> = Default::default();
     let acc_end: Rc<RefCell<Option<String>>> = Default::default();
-    {
-        let (m, de) = (s.mux.clone(), dg_end.clone());
+    let drop_mode = plan.drop_then_stall_ms > 0 && plan.backlog > 0;
+    if !drop_mode {
+        let (m, de) = (mux0.as_ref().expect("multiplexor").clone(), dg_end.clone());
         s.sim.spawn("dgrx", CLS_OTHER, async move {
             let r = m.get_datagram().await;
             *de.borrow_mut() = Some(format!("{:?}", r.map(|_| ())));
         });
-        let (m, ae) = (s.mux.clone(), acc_end.clone());
+        let (m, ae) = (mux0.as_ref().expect("multiplexor").clone(), acc_end.clone());
         s.sim.spawn("acceptor", CLS_OTHER, async move {
             let r = m.accept_stream_channel().await;
             *ae.borrow_mut() = Some(format!("{:?}", r.map(|_| ())));
@@ -1130,13 +1138,26 @@ async fn run_c16_async(plan: C16Plan, sched: Sched, record: bool) -> Outcome {
         });
     }
     if plan.backlog > 0 {
-        let (m, n, after) = (s.mux.clone(), plan.backlog, plan.start_delay_ms + plan.interval_ms / 2);
+        // in drop mode the only handle left is the one the burst task holds
+        let (m, n, after) = (mux0.take().expect("multiplexor"), plan.backlog, plan.start_delay_ms + plan.interval_ms / 2);
+        if !drop_mode {
+            mux0 = Some(m.clone());
+        }
+        let (link, stall) = (s.link.clone(), if drop_mode { plan.drop_then_stall_ms } else { 0 });
         s.sim.spawn("burst", CLS_OTHER, async move {
             tokio::time::sleep(Duration::from_millis(after)).await;
             for k in 0..n {
                 if m.send_datagram(penguin_mux::Datagram { flow_id: k as u32, target_host: bytes::Bytes::from_static(b"burst"), target_port: 9, data: bytes::Bytes::from(vec![k as u8; 24]) }).await.is_err() {
                     break;
                 }
+            }
+            if stall > 0 {
+                drop(m);
+                link.lock().unwrap().set_hold(0, true);
+                tokio::time::sleep(Duration::from_millis(stall)).await;
+                let mut l = link.lock().unwrap();
+                l.set_hold(0, false);
+                l.wake_all();
             }
         });
     }
@@ -1206,7 +1227,19 @@ async fn run_c16_async(plan: C16Plan, sched: Sched, record: bool) -> Outcome {
         if !pings.is_empty() {
             o.violate("C16:ping-although-disabled", format!("keepalive disabled but {} Ping(s) were sent; {desc}", pings.len()));
         }
-        if te.is_some() {
+        if drop_mode {
+            // the application let go of its multiplexor with a backlog queued and the live peer took
+            // nothing for longer than T: disabled means no step of the wind-down times out either
+            let got = l.evs.iter().filter(|e| e.stage == Stage::Consumed && e.from == 0 && matches!(&*e.w, Wire::Frame(RFrame::Datagram { .. }))).count();
+            let closed = l.evs.iter().any(|e| e.stage == Stage::Sent && e.from == 0 && matches!(&*e.w, Wire::Close));
+            if got != plan.backlog || !closed {
+                o.violate("C16:timeout-although-disabled:wind-down", format!("keepalive disabled (T = {t_req} ms still set), the application let go of its multiplexor with {} datagrams queued and the live peer took nothing for {} ms: {got} of them arrived, Close sent: {closed}; {desc}", plan.backlog, plan.drop_then_stall_ms));
+            }
+            if te.as_ref().is_some_and(|t| t.1.contains("KeepaliveTimeout")) {
+                o.violate("C16:timeout-although-disabled:wind-down", format!("keepalive disabled but the winding-down task returned a keepalive timeout; {desc}"));
+            }
+            o.probe("keepalive-disabled-wind-down-with-a-stalled-live-peer", 1);
+        } else if te.is_some() {
             o.violate("C16:ended-although-disabled", format!("keepalive disabled but the connection task returned; {desc}"));
         }
         o.probe("keepalive-disabled", 1);
